@@ -158,7 +158,18 @@ def scalar_runs(ctx, rng, idx):
                 kk = int(rng.integers(0, nstep + 1))
                 tsave.append(t0 + dt0 * (kk + float(rng.choice([0.0005, 0.9995, 0.5, 0.0, float(rng.uniform(0.01, 0.99))]))))
             tsave = sorted(tsave)
-    res = solver.solve(s.field, cfl, tsave, stop={"maxit": nstep + 2})
+    call = solver.solve
+    if rng.random() < 0.2:
+        # call history: the integrator object has run before -- on other data, watched by a residual monitor at every iteration -- and the
+        # judged run CONTINUES on it through restart() from this case's field (a checkpoint of another run): every step is still a step of
+        # the scheme from the state it is given
+        other = s.field.copy()
+        other.data[0] = np.roll(np.array(other.data[0], copy=True), 1)[::-1].copy()
+        with probes.quiet(), np.errstate(all="ignore"):
+            solver.solve(other, cfl, stop={"maxit": int(rng.integers(1, 4))}, monitors={"residual": {"frequency": 1}} if rng.random() < 0.8 else {})
+        call = solver.restart
+        ctx.ev("restart-on-a-used-integrator")
+    res = call(s.field, cfl, tsave, stop={"maxit": nstep + 2})
     q0 = np.asarray(s.field.data[0], float)
     if type(s.num).__name__ == "extrapol1" and mname != "convection":
         res = []          # Burgers with first-order upwinding is not in the stated class
